@@ -186,7 +186,7 @@ fn check_tape(tape: &[u8], gates: &Gates, stats: &mut Stats, counting: bool) -> 
         }
         let inputs = json!({"text": text, "encoding": ENC_NAMES[which], "faulty": faulty});
         match o.status {
-            Some(0) | Some(1) => {}
+            Some(c) if c != 101 => {} // any exit status but the panic status; death by signal is None
             other => return Err(Failure::new("encodings", "abnormal-exit", format!("`check` of the {} file exits {:?}", ENC_NAMES[which], other), inputs)),
         }
         if let Some((rw, r)) = &reference {
@@ -270,7 +270,7 @@ fn positions_inside(bytes: &[u8], what: &str) -> Result<(), (String, String)> {
             continue;
         }
         match o.status {
-            Some(0) | Some(1) => {}
+            Some(c) if c != 101 => {} // any exit status but the panic status; death by signal is None
             other => return Err(("abnormal-exit".into(), format!("{}: `{}` exits {:?}: {}", what, cmd, other, strip_ansi(&o.stderr).lines().last().unwrap_or("")))),
         }
         if let Some(text) = decode_like_cli(bytes) {
@@ -347,7 +347,7 @@ pub fn run(ctx: &Ctx) -> i32 {
             stats.class("degenerate-text");
             let inputs = json!({"text": text, "encoding": ENC_NAMES[which]});
             match (o.status, o.tok_status) {
-                (Some(0) | Some(1), Some(0) | Some(1)) => {}
+                (Some(a), Some(b)) if a != 101 && b != 101 => {}
                 other => return Err(Failure::new("degenerate", "abnormal-exit", format!("{:?} as {}: check / tokenize exit {:?}", text, ENC_NAMES[which], other), inputs)),
             }
             if let Some((rw, r)) = &reference {
